@@ -2063,6 +2063,12 @@ func lemmaNumberTemplateAgrees(a *asset, rep *RepData, n, D int) {
 
 // ---------------------------------------------------------------------------
 // C15: representation-metadata cache and asset admission
+// addRegExpAndInit: the pattern that recognises a representation's segments matches whole paths only
+// ("^" ... "$") and takes the characters of the media template literally (regexp.QuoteMeta).
+//@ func (*RepData).addRegExpAndInit
+//@   wiring
+//@   callsite QuoteMeta requires templateIsQuoted: arg0 == rp.MediaURI || arg0 == "$Number$" || arg0 == "$Time$"
+
 // loadRep: cached metadata is consulted only when this server does not (re)write the cache.
 //@ func (*assetMgr).loadRep
 //@   wiring
